@@ -131,7 +131,10 @@ class Analysis:
         """
         if not nodes:
             return False, index
-        delta_infty, total, dg = False, len(nodes), DeltaGraph()
+        delta_infty, total = False, len(nodes)
+        # early exit is driven by the delta graph: without it every
+        # statement, also inside nested blocks, is analysed to completion
+        dg = DeltaGraph() if stop else _NoDeltaGraph()
         for i, node in enumerate(nodes):
             logger.debug(f'computing relation...{i} of {total}')
             index, rel_list, delta_infty_ = Analysis \
@@ -623,6 +626,17 @@ class Analysis:
         warning, endc = '\033[93m', '\033[0m'
         fmt_str = str(command or "").strip()
         logger.warning(f'{warning}Unsupported syntax {fmt_str}{endc}')
+
+
+class _NoDeltaGraph(DeltaGraph):
+    """Delta graph of a run to completion: it records nothing and therefore
+    never reports that all choices fail."""
+
+    def insert_node(self, node) -> None:
+        pass
+
+    def fusion(self) -> None:
+        pass
 
 
 class LoopAnalysis(Analysis):
